@@ -25,5 +25,14 @@ def register(db):
     db.shape("TaskSet", {})
     db.contract(fn="TaskSet.add", assumed=True, params=["self", "t"])
     db.contract(fn="TaskSet.discard", assumed=True, params=["self", "t"])
+    # a finished task as seen from its done-callback: it may have ended normally, with an exception, or cancelled
+    db.contract(fn="Task.exception", assumed=True, params=["self"], returns="Optional[opaque]",
+                raises=[Raises("CancelledError", mode="may")],
+                note="Task.exception(): raises CancelledError when the task was cancelled (InvalidStateError if not done)")
+    db.contract(fn="Task.result", assumed=True, params=["self"], returns="opaque",
+                raises=[Raises("CancelledError", mode="may"), Raises("Exception", mode="may", anysub=True)],
+                note="Task.result(): re-raises the task's exception / CancelledError")
+    db.contract(fn="Task.cancelled", assumed=True, params=["self"], returns="bool")
+    db.contract(fn="Task.done", assumed=True, params=["self"], returns="bool")
     db.contract(fn="Task.add_done_callback", assumed=True, params=["self", "cb"],
                 note="the callback runs exactly once, after the task has finished (rely of the runner invariant)")
